@@ -1,8 +1,9 @@
 /-
 Driver/Misc.lean — commands for C18 / C19 (core only).
 
-  VALIDATE_DFA <dfa> | VALIDATE_NFA <nfa>                       → ok | err <Class>
-  VALIDATE_GNFA | _DPDA | _NPDA | _DTM | _NTM | _MNTM <def>     → ok | err <Class>
+  VALIDATE_DFA <res> <dfa> | VALIDATE_NFA <res> <nfa>           → ok | err <Class>
+  VALIDATE_DPDA | _NPDA <e> <def>                               → ok | err <Class>
+  VALIDATE_GNFA | _DTM | _NTM | _MNTM <def>                     → ok | err <Class>
   CONSTRUCT <CLASS> <shouldValidate> <allowMutable> <def>        → ok | err <Class>
   FREEZE <pyval>            → <pyval> frozen <0/1> supported <0/1> norm <pyval> normfz <pyval>
   SETATTR / DELATTR         → err AttributeError
@@ -11,6 +12,9 @@ Driver/Misc.lean — commands for C18 / C19 (core only).
   PICKLE <m0> <m1> <cls> <kwargs>   → same through __getstate__/__setstate__
 
 Wire formats (all integers unless noted; states 0..n-1, foreign names ≥ 1000):
+  res  := none empty   the state number that is Python's `None` and the symbol number that is the
+          empty string (any number that is not used, e.g. -9, when the definition has no such name);
+          e := the stack-symbol number that is the empty string (likewise)
   GNFA := n m o₁…o_m init final |T| (key k (target label)ᵏ)^|T|
           label := -1 (None) | len c… v ;  c ≥ 0 input symbol / other character,
           c = -2-i the i-th of * | ( ) ? ;  v = 1/0 (re._validate) or 2 (LexerError escapes)
@@ -188,6 +192,16 @@ def mntm : P (MNTM Int Int) := do
   pure { states := states n, syms := syms, tapeSyms := tape, nTapes := nTapes, trans := trans,
          init := init, blank := blank, finals := finals }
 
+/-- The interpretation of the protocol integers sent with a DFA / NFA definition. -/
+def reserved : P (Reserved Int Int) := do
+  let noneState ← int
+  let emptySym ← int
+  pure ⟨(· == noneState), (· == emptySym)⟩
+
+def emptyStackSym : P (Int → Bool) := do
+  let e ← int
+  pure (· == e)
+
 def showUnit (r : Res Unit) : String := (showRes (fun _ => "") r).trimAscii.toString
 
 /-! ### Python values -/
@@ -260,11 +274,19 @@ def constructCmd : P String := do
   let am ← bool
   let r : Res Unit ←
     match cls with
-    | "DFA" => do let d ← dfa; pure ((construct id id DFA.validate false sv am d).map fun _ => ())
-    | "NFA" => do let d ← nfa; pure ((construct id id NFA.validate false sv am d).map fun _ => ())
+    | "DFA" => do
+        let R ← reserved; let d ← dfa
+        pure ((construct id id (DFA.validateDef R) false sv am d).map fun _ => ())
+    | "NFA" => do
+        let R ← reserved; let d ← nfa
+        pure ((construct id id (NFA.validateDef R) false sv am d).map fun _ => ())
     | "GNFA" => do let d ← gnfa; pure ((construct id id GNFA.validate true sv am d).map fun _ => ())
-    | "DPDA" => do let d ← dpda; pure ((construct id id DPDA.validate false sv am d).map fun _ => ())
-    | "NPDA" => do let d ← npda; pure ((construct id id NPDA.validate false sv am d).map fun _ => ())
+    | "DPDA" => do
+        let e ← emptyStackSym; let d ← dpda
+        pure ((construct id id (DPDA.validateDef e) false sv am d).map fun _ => ())
+    | "NPDA" => do
+        let e ← emptyStackSym; let d ← npda
+        pure ((construct id id (NPDA.validateDef e) false sv am d).map fun _ => ())
     | "DTM" => do let d ← dtm; pure ((construct id id DTM.validate false sv am d).map fun _ => ())
     | "NTM" => do let d ← ntm; pure ((construct id id NTM.validate false sv am d).map fun _ => ())
     | "MNTM" => do let d ← mntm; pure ((construct id id MNTM.validate false sv am d).map fun _ => ())
@@ -273,11 +295,11 @@ def constructCmd : P String := do
 
 def handle (cmd : String) (args : List String) : Except String String :=
   match cmd with
-  | "VALIDATE_DFA" => run (do let d ← dfa; pure (showUnit d.validate)) args
-  | "VALIDATE_NFA" => run (do let d ← nfa; pure (showUnit d.validate)) args
+  | "VALIDATE_DFA" => run (do let R ← reserved; let d ← dfa; pure (showUnit (DFA.validateDef R d))) args
+  | "VALIDATE_NFA" => run (do let R ← reserved; let d ← nfa; pure (showUnit (NFA.validateDef R d))) args
   | "VALIDATE_GNFA" => run (do let d ← gnfa; pure (showUnit d.validate)) args
-  | "VALIDATE_DPDA" => run (do let d ← dpda; pure (showUnit d.validate)) args
-  | "VALIDATE_NPDA" => run (do let d ← npda; pure (showUnit d.validate)) args
+  | "VALIDATE_DPDA" => run (do let e ← emptyStackSym; let d ← dpda; pure (showUnit (d.validateDef e))) args
+  | "VALIDATE_NPDA" => run (do let e ← emptyStackSym; let d ← npda; pure (showUnit (d.validateDef e))) args
   | "VALIDATE_DTM" => run (do let d ← dtm; pure (showUnit d.validate)) args
   | "VALIDATE_NTM" => run (do let d ← ntm; pure (showUnit d.validate)) args
   | "VALIDATE_MNTM" => run (do let d ← mntm; pure (showUnit d.validate)) args
